@@ -40,6 +40,13 @@ def build_cases(tier, seed):
         if text not in seen:
             seen.add(text)
             cases.append(scripth.Case(p, specs=shapes.POPULATIONS[pop], tag='loops-%d[%s]' % (k, pop), vm_steps=2500, ref_steps=900))
+    # return from every nest of counted / light-iteration loops, with callers that have loops or operands pending
+    for p in shapes.enumerate_all(shapes.return_from_loops_program()):
+        k += 1
+        text = R.render(p)
+        if text not in seen:
+            seen.add(text)
+            cases.append(scripth.Case(p, specs=shapes.POPULATIONS['three'], tag='ret-loops-%d' % k, vm_steps=2500, ref_steps=900))
     # every unit switch with a delay and a transition duration in force (exhaustive small family)
     for doms, p in shapes.enumerate_all(shapes.unit_switch_program()):
         k += 1
